@@ -104,8 +104,11 @@ func vfValuePlacements(auditOrphans bool) {
 			zzvf.Reach("c11-placements-end")
 			return
 		}
-		zzvf.Known("KF-C11-1", w.faulted && !committed) // failure inside a commit step: see KF-C07-1
-		// KF-C11-2 (root cause KF-C01-1): actively persisted values, transaction not committed
+		zzvf.Known("KF-C11-1", vfFaultInsideNodeStep(w) && !committed) // failure inside a node commit step: see KF-C07-1
+		// KF-C11-3: actively persisted values were written before the commit; when the very first
+		// log write of Commit fails, the rollback runs before the step that cleans them is reached
+		zzvf.Known("KF-C11-3", placement == "actively-persisted" && w.faulted && !committed && w.faultIndex == 0)
+		// KF-C11-2 (root cause KF-C01-1, fixed in /repo): actively persisted values, transaction not committed
 		zzvf.Known("KF-C11-2", placement == "actively-persisted" && !committed)
 		au := w.audit()
 		regs, blobs, logs := w.orphans(au)
@@ -142,8 +145,9 @@ func vfValuePlacements(auditOrphans bool) {
 	for _, k := range []int{1, 3, 4, 5} {
 		check(k)
 	}
-	// KF-C01-1: actively persisted values, second rewrite of an item by a transaction that does
-	// not commit: the committed value of that item (key 2) becomes unreadable
+	// (KF-C01-1, fixed in /repo: actively persisted values, second rewrite of an item by a
+	// transaction that does not commit made the committed value of key 2 unreadable; the region is
+	// only honoured while the entry is open in known_findings.json)
 	zzvf.Known("KF-C01-1", placement == "actively-persisted" && !committed)
 	check(2)
 	if committed {
